@@ -47,6 +47,26 @@ def _cases():
     return out
 
 
+GROWTH_MIN = 0.03           # only inputs that take at least this long are examined for their growth
+GROWTH_RATIO = 3.0          # time(n) / time(n/2): 2 is linear, 4 quadratic
+
+
+def _half(data):
+    """the same input with half as many repetitions of its pumped middle, when it has one:
+    prefix + atom * n + suffix  ->  prefix + atom * (n // 2) + suffix (atoms of 1..6 bytes)"""
+    for plen in range(0, 12):
+        for alen in range(1, 7):
+            atom = data[plen:plen + alen]
+            if len(atom) < alen:
+                continue
+            n = 0
+            while data[plen + n * alen:plen + (n + 1) * alen] == atom:
+                n += 1
+            if n >= SIZES[-1]:
+                return data[:plen] + atom * (n // 2) + data[plen + n * alen:]
+    return None
+
+
 def _run_site(site, data):
     if site == "chunk-line":
         from waitress.buffers import OverflowableBuffer
@@ -101,6 +121,15 @@ def child(only=None):
             dt = min([dt] + [_cpu(site, data) for _ in range(3)])
         if dt > PER_INPUT_BUDGET:
             print(json.dumps({"slow": [site, data.hex(), round(dt, 3)]}), flush=True)
+        elif dt > GROWTH_MIN and len(data) >= SIZES[-1]:
+            # below the absolute budget at this size, but does the time grow faster than linearly?
+            # (a quadratic match of 0.3 s at 8 KiB is minutes at the default header limit)
+            half = _half(data)
+            if half is not None:
+                d_full = min([dt] + [_cpu(site, data) for _ in range(2)])
+                d_half = max([_cpu(site, half) for _ in range(3)])
+                if d_full > GROWTH_MIN and d_full > GROWTH_RATIO * max(d_half, 1e-4):
+                    print(json.dumps({"slow": [site, data.hex(), round(d_full, 3)]}), flush=True)
     print(json.dumps({"done": len(cases)}), flush=True)
 
 
